@@ -115,6 +115,17 @@ func runCoinswap(run *ev.Run, c int, mode string) {
 		d.next = r.Time.Add(dt)
 		n := 1 + rng.Intn(5)
 		var txs []rig.Tx
+		if c%4 == 1 && b == blocks*3/5-5 {
+			// shortly before the restart: the youngest pool is one whose denomination does not sort last
+			a := r.Acc(rng.Intn(6))
+			txs = append(txs, r.Mk(a, &csTag{Kind: "add", Note: "youngest-pool-does-not-sort-last", Bound: "new"}, &cstypes.MsgAddLiquidity{MaxToken: coin("junk-2", big.NewInt(3_000_000)), ExactStandardAmt: toInt(big.NewInt(2_000_000)), MinLiquidity: sdkmath.OneInt(), Deadline: d.next.Add(time.Hour).Unix(), Sender: a.Addr.String()}))
+		}
+		if c%4 == 1 && b == blocks*3/5+1 {
+			// right after the restart from the chain's own export: a pool for one more denomination is opened (it takes
+			// the next liquidity-token sequence number of the restarted chain)
+			a := r.Acc(rng.Intn(6))
+			txs = append(txs, r.Mk(a, &csTag{Kind: "add", Note: "pool-opened-after-the-restart", Bound: "new"}, &cstypes.MsgAddLiquidity{MaxToken: coin("junk-3", big.NewInt(3_000_000)), ExactStandardAmt: toInt(big.NewInt(2_000_000)), MinLiquidity: sdkmath.OneInt(), Deadline: d.next.Add(time.Hour).Unix(), Sender: a.Addr.String()}))
+		}
 		for i := 0; i < n; i++ {
 			if tx, ok := d.intent(maxBits, b); ok {
 				txs = append(txs, tx)
